@@ -514,7 +514,8 @@ fn run_exp(sh: &mut shell::Shell,
     let mut cr_list = Vec::new();
     let pairs = pair_in.into_inner();
     for pair in pairs {
-        let line = pair.as_str().trim();
+        // (an escaped blank at the end of the line belongs to the command)
+        let line = parsers::parser_line::trim_cmd(pair.as_str());
         if line.is_empty() {
             continue;
         }
